@@ -47,7 +47,9 @@ op = st.one_of(
     st.tuples(st.just("burst"), slot, st.integers(2, 6), st.sampled_from([0, 1, -1])),
     st.tuples(st.just("connect-many"), st.lists(slot, min_size=2, max_size=4, unique=True)),
     st.tuples(st.just("halfopen"), st.integers(0, 5), st.integers(2, 4)),   # key exchange done, challenge never answered: crafted datagrams
-    st.tuples(st.just("kick-on-disconnect"), slot),      # the handler's next disconnect event kicks that other client
+    # the handler's next disconnect event kicks that other client - and, when the flag is set, also shuts the server down
+    # (a two-player match: when one player leaves, the other is kicked and the server stops)
+    st.tuples(st.just("kick-on-disconnect"), slot, st.booleans()),
     st.tuples(st.just("connect-sending"), slot, st.integers(1, 3)),   # the client sends from inside its connect callback
     st.tuples(st.just("ssend"), slot, st.sampled_from([0, 3, 20, 300, 2000]), st.sampled_from([0, 1, -1])),
     st.tuples(st.just("disconnect"), slot),
@@ -88,6 +90,8 @@ class Automaton(object):
         self.n_connect = 0
         self.pending = []      # violations found on the server thread
         self.kick_on_disconnect = None   # addr to kick from inside the next disconnect event
+        self.shutdown_with_kick = False
+        self.flags = set()
         self.watches = {}      # id(client obj) -> ConnWatch (observation only), attached at the connect event
         self.handled = {}      # id(client obj) -> set of message seqnums handed to handle_message
 
@@ -152,6 +156,11 @@ class Automaton(object):
                 if victim is not None and victim is not c:
                     self.sdisc.add(id(victim))
                     victim.disconnect()        # a server-initiated disconnect issued from inside a handler event
+                    if self.shutdown_with_kick:
+                        self.shutdown_with_kick = False
+                        self.shutdown_requested = True
+                        w.ctxt.shutdown()      # ... and the shutdown takes effect in this very tick
+                        self.flags.add("kick-and-shutdown-from-disconnect-event")
             # silence is measured on the harness's own record of the wire: the last first-time datagram from that address
             # that opens under the session key (stale copies and garbage do not count as signs of life)
             t_last = None
@@ -234,6 +243,11 @@ def body(ctx, c):
         for o in ops:
             if w.state == "dead":
                 break
+            if auto.shutdown_requested:
+                # the handler shut the server down from inside an event
+                flags.update(auto.flags)
+                step(2)
+                break
             name = o[0]
             if name == "connect":
                 k = o[1]
@@ -273,6 +287,7 @@ def body(ctx, c):
                         step(3)
             elif name == "kick-on-disconnect":
                 auto.kick_on_disconnect = addrs[o[1]]
+                auto.shutdown_with_kick = len(o) > 2 and bool(o[2])
                 flags.add("kick-from-disconnect-event")
             elif name == "connect-sending":
                 k = o[1]
